@@ -308,6 +308,22 @@ func genClock(r *vrng, ctx caddy.Context) mcase {
 		}
 		tz = fmt.Sprintf("%s%02d:%02d", sign, o/3600, o/60%60)
 	}
+	// zones with daylight saving time: the wall clock depends on the date of the connection, not on the date of provisioning.
+	// Offsets on 2024-05-17 / 2024-01-18 from the zones' published rules (not computed with the library under test).
+	wrapDay := 0
+	if r.intn(3) == 0 {
+		z := r.intn(4)
+		name := []string{"America/New_York", "Europe/Berlin", "Australia/Sydney", "Asia/Kolkata"}[z]
+		may := []int{-4 * 3600, 2 * 3600, 10 * 3600, 19800}[z]
+		jan := []int{-5 * 3600, 1 * 3600, 11 * 3600, 19800}[z]
+		mz := &l4clock.MatchClock{After: hms(after), Before: hms(before), Timezone: name}
+		if mz.Provision(ctx) == nil {
+			tz, offs = name, may
+			if r.intn(2) == 0 {
+				wrapDay, offs = -120, jan
+			}
+		}
+	}
 	m := &l4clock.MatchClock{After: hms(after), Before: hms(before), Timezone: tz}
 	prov(ctx, m)
 	now := r.pick(0, 1, 3599, 3600, 3601, 43199, 43200, 86399, r.intn(86400))
@@ -325,7 +341,7 @@ func genClock(r *vrng, ctx caddy.Context) mcase {
 	if lo <= local && local < hi {
 		exp = "yes"
 	}
-	return mcase{name: "clock", cfg: fmt.Sprintf("%d %d %d", after, before, local), m: m, msg: r.bytes(r.intn(3), 256), model: true, wrapTime: now + 1, expect: exp}
+	return mcase{name: "clock", cfg: fmt.Sprintf("%d %d %d", after, before, local), m: m, msg: r.bytes(r.intn(3), 256), model: true, wrapTime: now + 1, wrapDay: wrapDay, expect: exp}
 }
 
 func genIP(r *vrng, ctx caddy.Context) mcase {
